@@ -11,8 +11,9 @@ No bound on the source, the shard chain, the offsets, the history or the `take` 
 Full statement of the property (English): *for every recoverable source or pipeline over it,
 every history and every supported execution configuration, the elements delivered across all
 generations are exactly the source's, none repeated, none skipped, and the final aggregate equals
-the uninterrupted run's.*  Proved at full strength for sources (`C10_source*`) and for sequential
-(`num_threads = 0`) pipelines whose chain is row-wise (`C10_pipeline_seq*`).  For chains that
+the uninterrupted run's.*  Proved at full strength for sources (`C10_source*`), for sequential
+(`num_threads = 0`) pipelines whose chain is row-wise (`C10_pipeline_seq*`) and for chains of such
+runners (`C10_pipeline_chain`).  For chains that
 buffer (re-batching, finding F16) and for `num_threads > 0` (finding F12) the real code does not
 satisfy the property; the `_partial` theorems state exactly what is lost — the rows held between
 the source cursor and the consumer at a checkpoint from which the pipeline is restored — and
@@ -280,5 +281,18 @@ example : SeqIt.Inv 10 (Src.iterate ⟨[Cfg.dflt, ⟨1, 2, 1⟩], 6, 10⟩) :=
 example : ((SrcRun.run (seqRec (List.range 10)) (SrcRun.init _ (Src.root 10).iterate)
     [.take 3, .ckpt, .restore, .take 2, .ckpt, .restore, .take 100]).toOption.map (·.delivered)) =
     some (List.range 10) := by decide
+
+/-- a chain of two runners under a history with a second-generation restore: outputs of the
+downstream runner and the aggregate (sum, count) of the upstream one -/
+example :
+    let Pa := rowPipe (fun x : Nat => [x + 1]) (⟨(0, 0), fun xs => (xs.foldl (· + ·) 0, xs.length),
+      fun s t => (s.1 + t.1, s.2 + t.2), id⟩ : Agg.Mergeable Nat (Nat × Nat) (Nat × Nat)) (fun b => [b])
+    let Pb := rowPipe (fun y : Nat => [2 * y]) (⟨(), fun _ => (), fun _ _ => (), id⟩ : Agg.Mergeable Nat Unit Unit)
+      (fun b => [b])
+    let Ra := pipeRec (seqRec (List.range 5)) Pa
+    ((PipeRun.run Ra Pb (rowViewOf fun y : Nat => [2 * y])
+        (PipeRun.init (ρ := Nat) Ra Pb (PipeIt.fresh _ Pa (Src.root 5).iterate (0, 0)))
+        [.take 1, .ckpt, .restore, .take 2, .ckpt, .restore, .take 100]).toOption.map
+      fun r => (Ev.delivered r.trace, r.p.src.agg)) = some ([2, 4, 6, 8, 10], (15, 5)) := by decide
 
 end MlModel.C10
